@@ -514,7 +514,7 @@ def monitor(stream, case, out):
         # events are in time order: the first failing hook before run() returned is the failure that is not swallowed.
         # (reduce_ stops the combiners it retires DURING a run through its noexcept retire / rollback paths: a stop fault
         # there is swallowed by design; only the parent's own stop reports combiner stop errors.)
-        swallowed = p["kind"] == "reduce" and tag == "px!" and ph not in ("stop", "rel")
+        swallowed = p["kind"].startswith("reduce") and tag == "px!" and ph not in ("stop", "rel")
         if tag in ("ps!", "pe!", "px!") and first_fail is None and ph != "rel" and not swallowed:
             first_fail = (ph, {"ps!": "start", "pe!": "evaluate", "px!": "stop"}[tag], node)
         # observer pairing: every `before` is closed by an `after` (or, for a start, by `failed`)
@@ -607,7 +607,7 @@ def features(stream, case, out):
             f.append("dyn:%s-outgoing-stop-fault" % p["kind"])
         if nb >= 2 and any(t.startswith("ps!") for t in toks):
             f.append("dyn:%s-incoming-start-fault" % p["kind"])
-    if p["kind"] == "reduce":
+    if p["kind"].startswith("reduce"):
         ords = [int(t[2:].split("#")[0]) for t in toks if t.startswith("G<")]
         f.append("dyn:reduce-combiners=%s" % ("0" if not ords else "1-2" if max(ords) <= 2 else "3-6" if max(ords) <= 6 else "7+"))
         fired = [(ph, t[:3]) for (ph, t, _) in p["seq"] if t[:3] in ("ps!", "pe!", "px!")]
